@@ -105,7 +105,7 @@ impl Check for C09 {
     fn meta(&self) -> Meta {
         Meta {
             level: "exploration",
-            rule: "histories of 0-4 accepted requests, each ending in one of {normal finish, resolver dropped before header resolution, FIN before HEADERS, client RESET before / after HEADERS, malformed headers, oversized headers, split into halves dropped at different times, held by the application until released, never resolving until released} combined with the client's GOAWAY written at a drawn script position; in one run in three the requests are written in a drawn order and surface in arrival order (stream 4 may be accepted before stream 0); all interleavings and chunkings drawn; judged at two exact quiescence points (before and after the held requests are released); non-trivial = GOAWAY delivered and >= 1 request handed out; distinct = distinct schedule signatures",
+            rule: "histories of 0-4 accepted requests, each ending in one of {normal finish, resolver dropped before header resolution, FIN before HEADERS, client RESET before / after HEADERS, malformed headers, oversized headers, split into halves dropped at different times, held by the application until released, never resolving until released} combined with the client's GOAWAY written at a drawn script position and, in one run in three, a server-initiated shutdown(n), n in 0..3, at a drawn moment; in one run in three the requests are written in a drawn order and surface in arrival order (stream 4 may be accepted before stream 0); all interleavings and chunkings drawn; judged at two exact quiescence points (before and after the held requests are released); non-trivial = GOAWAY delivered and >= 1 request handed out; distinct = distinct schedule signatures",
             real: &["h3 server Connection (accept / request completion accounting)", "RequestResolver, server RequestStream and its halves, RequestEnd notification channel"],
             stub: &["QUIC transport (SimQuic)", "executor (simexec)", "peer (script)", "application (drawn handling of each request; handle lifetimes tracked by drop guards)"],
             assumptions: &["a request has ended when the application holds no handle of it any more (resolver, stream or either half), whether by drop or by a failing call that consumed it"],
@@ -143,6 +143,7 @@ impl Check for C09 {
             cid
         };
         let goaway_pos = draw_usize(k + 1);
+        let own_shutdown_plan: (bool, u32, usize) = if draw(3) == 2 { (true, draw(60), draw_usize(4)) } else { (false, 0, 0) };
         let log: Rc<RefCell<Vec<Ev>>> = Default::default();
         let release = Rc::new(Gate::default());
         let mut ex = Exec::new();
@@ -199,9 +200,34 @@ impl Check for C09 {
                         return;
                     }
                 };
+                // one run in three: the server also begins its own graceful shutdown at a drawn moment
+                // (requests accepted in its grace interval are handed out like any other)
+                let mut own_shutdown: Option<(Rc<Gate>, usize)> = if own_shutdown_plan.0 {
+                    let g = Rc::new(Gate::default());
+                    let g2 = g.clone();
+                    let delay = own_shutdown_plan.1;
+                    exec::spawn("shutdown-timer", async move {
+                        for _ in 0..delay {
+                            exec::yield_now().await;
+                        }
+                        g2.open();
+                    });
+                    Some((g, own_shutdown_plan.2))
+                } else {
+                    None
+                };
                 loop {
-                    match accept_or_gate(&mut c, None).await {
-                        Accepted::Gate => unreachable!(),
+                    let gate = own_shutdown.as_ref().map(|(g, _)| g.clone());
+                    match accept_or_gate(&mut c, gate.as_deref()).await {
+                        Accepted::Gate => {
+                            let (_, n) = own_shutdown.take().unwrap();
+                            obs::ev("app.shutdown", n as u64 * 4, 0);
+                            obs::count("probe.server_initiated_shutdown");
+                            if let Err(e) = c.shutdown(n).await {
+                                log.borrow_mut().push(Ev::AcceptErr(format!("shutdown: {}", cout(&e))));
+                                return;
+                            }
+                        }
                         Accepted::Done => {
                             obs::ev("app.accept_none", 0, 0);
                             log.borrow_mut().push(Ev::AcceptNone);
